@@ -184,6 +184,11 @@ def run(ctx):
         pf = r["pf"]
         if abs(Fraction(float.fromhex(pf["df"])) - df) > df * Fraction(1, 10 ** 12) or abs(Fraction(float.fromhex(pf["dt"])) - dt) > dt * Fraction(1, 10 ** 12):
             ctx.impl_violation("helper-params", "params_from_backend df/dt disagree with the backend", c)
+        ffb = r.get("frame_from_backend")
+        if ffb is not None and (abs(Fraction(float.fromhex(ffb["df"])) - df) > df * Fraction(1, 10 ** 12) or abs(Fraction(float.fromhex(ffb["dt"])) - dt) > dt * Fraction(1, 10 ** 12)
+                                or ffb["tchans"] != pf["tchans"]):
+            ctx.impl_violation("frame-from-backend", "Frame.from_backend_params(num_branches=%d, fftlength=%d, int_factor=%d): df %r dt %r tchans %d; the backend gives df %r dt %r, params_from_backend %d spectra"
+                               % (c["nb"], h["fftlength"], h["int_factor"], float.fromhex(ffb["df"]), float.fromhex(ffb["dt"]), ffb["tchans"], float(df), float(dt), pf["tchans"]), c)
         # ---- model vs impl
         if vals is not None:
             if (mb, mspb) != (r["bps"], r["spb"]):
